@@ -1,10 +1,34 @@
 (* C09 — finite facts about the GENERATED marching-cubes table (PFGen.MarchTable), each decided by
-   vm_compute over all 256 cases.  A changed table row / corner table makes one of them fail. *)
+   vm_compute over all 256 cases.  A changed table row / corner table makes one of them fail.
+
+   Every check has the shape  allN pred lists = true  with a named predicate, so that the lemmas
+   using them (GridProofs) never ask the kernel to unfold a check over the whole table. *)
 From Coq Require Import List ZArith Bool Lia.
 From PFGen Require Import MarchTable.
 From PF Require Import March.Grid.
 Import ListNotations.
 Open Scope Z_scope.
+
+Definition all1 {A} (p : A -> bool) (la : list A) : bool := forallb p la.
+Definition all2 {A B} (p : A -> B -> bool) (la : list A) (lb : list B) : bool :=
+  forallb (fun a => forallb (p a) lb) la.
+Definition all3 {A B C} (p : A -> B -> C -> bool) (la : list A) (lb : list B) (lc : list C) : bool :=
+  forallb (fun a => forallb (fun b => forallb (p a b) lc) lb) la.
+
+Lemma all1_spec {A} (p : A -> bool) la : all1 p la = true -> forall a, In a la -> p a = true.
+Proof. unfold all1. intros H. apply forallb_forall. exact H. Qed.
+Lemma all2_spec {A B} (p : A -> B -> bool) la lb :
+  all2 p la lb = true -> forall a b, In a la -> In b lb -> p a b = true.
+Proof.
+  unfold all2. intros H a b Ha Hb.
+  exact (proj1 (forallb_forall _ _) (proj1 (forallb_forall _ _) H a Ha) b Hb).
+Qed.
+Lemma all3_spec {A B C} (p : A -> B -> C -> bool) la lb lc :
+  all3 p la lb lc = true -> forall a b c, In a la -> In b lb -> In c lc -> p a b c = true.
+Proof.
+  unfold all3. intros H a b c Ha Hb Hc.
+  exact (proj1 (forallb_forall _ _) (proj1 (forallb_forall _ _) (proj1 (forallb_forall _ _) H a Ha) b Hb) c Hc).
+Qed.
 
 (* ---------- shape of the tables ---------- *)
 Definition unit_edge (e : Z) : bool :=
@@ -12,86 +36,89 @@ Definition unit_edge (e : Z) : bool :=
   (Z.abs (ax - bx) + Z.abs (ay - by_) + Z.abs (az - bz) =? 1).
 Definition nodup_ge (l : list gedge) : bool :=
   (fix go l := match l with [] => true | x :: r => negb (existsb (ge_eqb x) r) && go r end) l.
-
 Definition nodup_pt (l : list pt) : bool :=
   (fix go l := match l with [] => true | x :: r => negb (existsb (pt_eqb x) r) && go r end) l.
+
+Definition incr01_pred (k : Z) : bool :=
+  let '(x, y, z) := incr k in
+  ((x =? 0) || (x =? 1)) && ((y =? 0) || (y =? 1)) && ((z =? 0) || (z =? 1)).
+Lemma incr01_ok : all1 incr01_pred idx8l = true.
+Proof. vm_compute. reflexivity. Qed.
 
 Definition shape_check : bool :=
   (Z.of_nat (length triangulation) =? 256) &&
   (Z.of_nat (length cubeDataIndexIncrements) =? 8) &&
   (Z.of_nat (length cornerIndexAFromEdge) =? 12) && (Z.of_nat (length cornerIndexBFromEdge) =? 12) &&
   forallb row_wf triangulation &&
-  forallb (fun k => let '(x, y, z) := incr k in
-                    ((x =? 0) || (x =? 1)) && ((y =? 0) || (y =? 1)) && ((z =? 0) || (z =? 1))) idx8l &&
   (* the eight increments are the eight corners of the unit cube *)
   nodup_pt (map incr idx8l) &&
   forallb (fun e => (0 <=? corner_a e) && (corner_a e <? 8) && (0 <=? corner_b e) && (corner_b e <? 8)
                     && unit_edge e) idx12 &&
   nodup_ge E12.
-
 Lemma shape_ok : shape_check = true.
 Proof. vm_compute. reflexivity. Qed.
 
-(* every triangle of every case: edge ids in 0..11, three distinct grid edges *)
-Definition rows_check : bool :=
-  forallb (fun i => forallb (fun '(a, b, c) =>
-      (0 <=? a) && (a <? 12) && (0 <=? b) && (b <? 12) && (0 <=? c) && (c <? 12) &&
-      negb (a =? b) && negb (b =? c) && negb (a =? c))
-    (row_tris (znth triangulation i []))) idx256.
-Lemma rows_ok : rows_check = true.
+(* the 12 cube edges lie on 12 different grid edges *)
+Definition ledge_inj_pred (a b : Z) : bool := if ge_eqb (ledge a) (ledge b) then a =? b else true.
+Lemma ledge_inj_ok : all2 ledge_inj_pred idx12 idx12 = true.
+Proof. vm_compute. reflexivity. Qed.
+
+(* every triangle of every case: edge ids in 0..11, three distinct ids *)
+Definition row_pred (t : Z * Z * Z) : bool :=
+  let '(a, b, c) := t in
+  (0 <=? a) && (a <? 12) && (0 <=? b) && (b <? 12) && (0 <=? c) && (c <? 12) &&
+  negb (a =? b) && negb (b =? c) && negb (a =? c).
+Definition rows_pred (i : Z) : bool := forallb row_pred (row_tris (znth triangulation i [])).
+Lemma rows_ok : all1 rows_pred idx256 = true.
 Proof. vm_compute. reflexivity. Qed.
 
 (* hence every directed triangle edge joins two distinct grid edges of the cell *)
-Definition dedges_check : bool :=
-  forallb (fun i => forallb (fun e => in_e12 (fst e) && in_e12 (snd e) && negb (ge_eqb (fst e) (snd e)))
-                            (dedges (ltris i))) idx256.
-Lemma dedges_ok : dedges_check = true.
+Definition dedge_pred (e : dedge) : bool := in_e12 (fst e) && in_e12 (snd e) && negb (ge_eqb (fst e) (snd e)).
+Definition dedges_pred (i : Z) : bool := forallb dedge_pred (dedges (ltris i)).
+Lemma dedges_ok : all1 dedges_pred idx256 = true.
 Proof. vm_compute. reflexivity. Qed.
 
-Definition e12_unit_check : bool :=
-  forallb (fun g => let '((x, y, z), a) := g in
-     ((x =? 0) || (x =? 1)) && ((y =? 0) || (y =? 1)) && ((z =? 0) || (z =? 1)) && (0 <=? a) && (a <? 3)) E12.
-Lemma e12_unit_ok : e12_unit_check = true.
+Definition e12_unit_pred (g : gedge) : bool :=
+  let '((x, y, z), a) := g in
+  ((x =? 0) || (x =? 1)) && ((y =? 0) || (y =? 1)) && ((z =? 0) || (z =? 1)) && (0 <=? a) && (a <? 3).
+Lemma e12_unit_ok : all1 e12_unit_pred E12 = true.
 Proof. vm_compute. reflexivity. Qed.
 
 (* ---------- geometry of the unit cell ---------- *)
 Definition cube27 : list pt :=
   flat_map (fun x => flat_map (fun y => map (fun z => (x, y, z)) [-1; 0; 1]) [-1; 0; 1]) [-1; 0; 1].
 (* two distinct edges of a cell lie together in at most one other cell, a face neighbour *)
-Definition fdir_check : bool :=
-  forallb (fun u => forallb (fun v => forallb (fun d =>
-    if negb (ge_eqb u v) && negb (pt_eqb d (0, 0, 0)) && in_e12 (gsub u d) && in_e12 (gsub v d)
-    then match fdir u v with Some d' => pt_eqb d d' | None => false end else true) cube27) E12) E12.
-Lemma fdir_ok : fdir_check = true.
+Definition fdir_pred (u v : gedge) (d : pt) : bool :=
+  if negb (ge_eqb u v) && negb (pt_eqb d (0, 0, 0)) && in_e12 (gsub u d) && in_e12 (gsub v d)
+  then match fdir u v with Some d' => pt_eqb d d' | None => false end else true.
+Lemma fdir_ok : all3 fdir_pred E12 E12 cube27 = true.
 Proof. vm_compute. reflexivity. Qed.
 
 (* ---------- table_face_consistent ---------- *)
 (* interior edges (no common cube face) cancel inside the cell *)
-Definition interior_check : bool :=
-  forallb (fun i => forallb (fun u => forallb (fun v =>
-    if negb (ge_eqb u v) then
-      match fdir u v with
-      | None => Nat.eqb (lcount i (u, v)) (lcount i (v, u)) && Nat.leb (lcount i (u, v)) 1
-      | Some _ => true
-      end else true) E12) E12) idx256.
-Lemma interior_ok : interior_check = true.
+Definition interior_pred (i : Z) (u v : gedge) : bool :=
+  if negb (ge_eqb u v) then
+    match fdir u v with
+    | None => Nat.eqb (lcount i (u, v)) (lcount i (v, u)) && Nat.leb (lcount i (u, v)) 1
+    | Some _ => true
+    end else true.
+Lemma interior_ok : all3 interior_pred idx256 E12 E12 = true.
 Proof. vm_compute. reflexivity. Qed.
 
 (* face edges: for a cell with case i and its neighbour at offset d with case i', agreeing on the
    four shared corners, the directed edges in the shared face are each other's reverses, at most once *)
-Definition face_pairs (d : pt) : list (gedge * gedge) :=
-  filter (fun '(u, v) => negb (ge_eqb u v) && in_e12 (gsub u d) && in_e12 (gsub v d)) (list_prod E12 E12).
-Definition face_ok (d : pt) (fp : list (gedge * gedge)) (i i' : Z) : bool :=
-  let di := dedges (ltris i) in let di' := dedges (ltris i') in
-  forallb (fun '(u, v) =>
-    let a := countd (u, v) di in let b := countd (gsub u d, gsub v d) di' in
-    let a' := countd (v, u) di in let b' := countd (gsub v d, gsub u d) di' in
-    Nat.eqb a b' && Nat.eqb b a' && Nat.leb (a + b) 1) fp.
-Definition face_check : bool :=
-  forallb (fun d => let fp := face_pairs d in
-    forallb (fun i => forallb (fun i' => if compat d i i' then face_ok d fp i i' else true) idx256) idx256)
-    face_dirs.
-Lemma face_check_ok : face_check = true.
+Definition face_pair_pred (d : pt) (p : gedge * gedge) : bool :=
+  let '(u, v) := p in negb (ge_eqb u v) && in_e12 (gsub u d) && in_e12 (gsub v d).
+Definition face_pairs (d : pt) : list (gedge * gedge) := filter (face_pair_pred d) (list_prod E12 E12).
+Definition face_edge_pred (d : pt) (di di' : list dedge) (p : gedge * gedge) : bool :=
+  let '(u, v) := p in
+  let a := countd (u, v) di in let b := countd (gsub u d, gsub v d) di' in
+  let a' := countd (v, u) di in let b' := countd (gsub v d, gsub u d) di' in
+  Nat.eqb a b' && Nat.eqb b a' && Nat.leb (a + b) 1.
+Definition face_pred (d : pt) (fp : list (gedge * gedge)) (i i' : Z) : bool :=
+  if compat d i i' then all1 (face_edge_pred d (dedges (ltris i)) (dedges (ltris i'))) fp else true.
+Definition face_dir_pred (d : pt) : bool := all2 (face_pred d (face_pairs d)) idx256 idx256.
+Lemma face_check_ok : all1 face_dir_pred face_dirs = true.
 Proof. vm_compute. reflexivity. Qed.
 
 (* ---------- table_oriented ---------- *)
@@ -100,6 +127,7 @@ Definition mid2 (e : Z) : pt := padd (incr (corner_a e)) (incr (corner_b e)).
 Definition cross (a b : pt) : pt :=
   let '(ax, ay, az) := a in let '(bx, by_, bz) := b in (ay * bz - az * by_, az * bx - ax * bz, ax * by_ - ay * bx).
 Definition dot (a b : pt) : Z := let '(ax, ay, az) := a in let '(bx, by_, bz) := b in ax * bx + ay * by_ + az * bz.
+(* (twice the) normal of the triangle with vertices at the (doubled) midpoints of cube edges a, b, c *)
 Definition tnormal (t : Z * Z * Z) : pt :=
   let '(a, b, c) := t in cross (psub (mid2 b) (mid2 a)) (psub (mid2 c) (mid2 a)).
 Definition crossed (i e : Z) : bool := xorb (Z.testbit i (corner_a e)) (Z.testbit i (corner_b e)).
@@ -110,34 +138,33 @@ Definition outdir (i e : Z) : pt :=
 Definition uses (t : Z * Z * Z) (e : Z) : bool := let '(a, b, c) := t in (a =? e) || (b =? e) || (c =? e).
 
 (* every triangle vertex sits on an edge with a sign change, and the three-edge sum is positive *)
-Definition oriented_tri_check : bool :=
-  forallb (fun i => forallb (fun t => let '(a, b, c) := t in
-      crossed i a && crossed i b && crossed i c &&
-      (0 <? dot (tnormal t) (outdir i a) + dot (tnormal t) (outdir i b) + dot (tnormal t) (outdir i c)))
-    (row_tris (znth triangulation i []))) idx256.
-Lemma oriented_tri_ok : oriented_tri_check = true.
+Definition oriented_tri_pred (i : Z) (t : Z * Z * Z) : bool :=
+  let '(a, b, c) := t in
+  crossed i a && crossed i b && crossed i c &&
+  (0 <? dot (tnormal t) (outdir i a) + dot (tnormal t) (outdir i b) + dot (tnormal t) (outdir i c)).
+Definition oriented_case_pred (i : Z) : bool := forallb (oriented_tri_pred i) (row_tris (znth triangulation i [])).
+Lemma oriented_tri_ok : all1 oriented_case_pred idx256 = true.
 Proof. vm_compute. reflexivity. Qed.
 
 (* every edge with a sign change carries a vertex, and the flux through the triangles around it is outward *)
 Definition flux (i e : Z) : Z :=
   fold_right Z.add 0 (map (fun t => if uses t e then dot (tnormal t) (outdir i e) else 0)
                           (row_tris (znth triangulation i []))).
-Definition oriented_flux_check : bool :=
-  forallb (fun i => forallb (fun e => if crossed i e then 0 <? flux i e else
-                                        negb (existsb (fun t => uses t e) (row_tris (znth triangulation i [])))) idx12) idx256.
-Lemma oriented_flux_ok : oriented_flux_check = true.
+Definition oriented_flux_pred (i e : Z) : bool :=
+  if crossed i e then 0 <? flux i e
+  else negb (existsb (fun t => uses t e) (row_tris (znth triangulation i []))).
+Lemma oriented_flux_ok : all2 oriented_flux_pred idx256 idx12 = true.
 Proof. vm_compute. reflexivity. Qed.
 
 (* the per-edge form is NOT true of this table (skinny triangles) *)
-Definition per_edge_check : bool :=
-  forallb (fun i => forallb (fun t => let '(a, b, c) := t in
-      (0 <? dot (tnormal t) (outdir i a)) && (0 <? dot (tnormal t) (outdir i b)) && (0 <? dot (tnormal t) (outdir i c)))
-    (row_tris (znth triangulation i []))) idx256.
-Lemma per_edge_refuted : per_edge_check = false.
+Definition per_edge_pred (i : Z) (t : Z * Z * Z) : bool :=
+  let '(a, b, c) := t in
+  (0 <? dot (tnormal t) (outdir i a)) && (0 <? dot (tnormal t) (outdir i b)) && (0 <? dot (tnormal t) (outdir i c)).
+Definition per_edge_case_pred (i : Z) : bool := forallb (per_edge_pred i) (row_tris (znth triangulation i [])).
+Lemma per_edge_refuted : all1 per_edge_case_pred idx256 = false.
 Proof. vm_compute. reflexivity. Qed.
 
 (* the unused `edges` table of table.go: bit e of edges[i] is set iff cube edge e has a sign change *)
-Definition edges_table_check : bool :=
-  forallb (fun i => forallb (fun e => Bool.eqb (Z.testbit (znth edges i 0) e) (crossed i e)) idx12) idx256.
-Lemma edges_table_ok : edges_table_check = true.
+Definition edges_table_pred (i e : Z) : bool := Bool.eqb (Z.testbit (znth edges i 0) e) (crossed i e).
+Lemma edges_table_ok : all2 edges_table_pred idx256 idx12 = true.
 Proof. vm_compute. reflexivity. Qed.
